@@ -263,6 +263,22 @@ Lemma z_resolve_eq : forall (h : z_heap V) i a u,
 Proof. reflexivity. Qed.
 Ltac zheap H := rewrite ?z_rd_cell_set_orig, ?z_rd_orig_set_orig, ?z_rd_cell_set_cell, ?z_rd_orig_set_cell in H.
 
+(* the same, for any heap that differs from h only at i and has y in the cell of i (whatever the source field holds) *)
+Lemma z_inv_publish_frame : forall w h h' c i y, z_inv w h c -> c i = None -> i < List.length w ->
+  (forall u, u <> i -> h' u = h u) -> zs_cell (h' i) = Some y ->
+  z_inv w h' (z_cset c i y).
+Proof.
+  intros w h h' c i y I Ci IL Fr Cy k.
+  pose proof (z_inv_publish w h c i y (zs_orig (h' i)) I Ci IL k) as P.
+  unfold z_set in P. destruct (Nat.eqb k i) eqn:E.
+  - apply Nat.eqb_eq in E; subst k. destruct (h' i) as [cl og]. simpl in Cy. subst cl. exact P.
+  - rewrite Fr by (apply Nat.eqb_neq; exact E). exact P.
+Qed.
+Ltac zframe i := let u := fresh "u" in let N := fresh "N" in
+  intros u N; apply Nat.eqb_neq in N; unfold z_set_orig, z_set_cell, z_set; rewrite ?N; reflexivity.
+Ltac zcell := unfold z_set_orig, z_set_cell, z_set; rewrite ?Nat.eqb_refl; cbn [zs_cell zs_orig];
+  rewrite ?Nat.eqb_refl; reflexivity.
+
 Lemma z_code_nonempty : z_code <> [].
 Proof. vm_compute. discriminate. Qed.
 
@@ -299,7 +315,7 @@ Proof.
       * zinv H. eauto.
       * cbn [z_exec z_write_h z_write_e z_read Nat.eqb] in H. zheap H. zinv H.
         eexists. split; [reflexivity|].
-        intro k. rewrite z_publish_eq. apply z_inv_publish; auto. apply nth_error_Some; congruence.
+        apply (z_inv_publish_frame w h); auto; [apply nth_error_Some; congruence|zframe i|zcell].
     + (* the source is a parent indexer that has not been asked yet by this object *)
       destruct (zd_par d) as [a0|j'] eqn:P; [congruence|].
       destruct I3 as [L|[a1 [L1 L2]]]; [|congruence]. zinv L.
@@ -324,7 +340,8 @@ Proof.
       * zinv H. eexists; split; [reflexivity|exact I2'].
       * cbn [z_exec z_write_h z_write_e z_read Nat.eqb] in H. zheap H. zinv H.
         eexists. split; [reflexivity|].
-        intro k. rewrite z_publish_eq. apply z_inv_publish; auto. apply nth_error_Some; congruence.
+        apply (z_inv_publish_frame w (z_set_orig h1 i (ZSArr a))); auto;
+          [apply nth_error_Some; congruence|zframe i|zcell].
     + (* an unset object always has its source *)
       destruct (zd_par d); [congruence|]. destruct I3 as [L|[a1 [L1 L2]]]; congruence.
 Qed.
@@ -476,3 +493,33 @@ Lemma z_skeleton :
   c04_shape_via_dataset = true /\ c04_dtype_via_dataset = true /\ c04_getitem_via_dataset = true /\
   c04_get_via_dataset = true /\ c04_len_via_dataset = true.
 Proof. split; [vm_compute; discriminate|]. repeat split; reflexivity. Qed.
+
+(* non-vacuity on real arrays: a parent (rows 1: of a 4-vector, 2x+1) shared by two children (elements [2,0] negated;
+   everything, negated).  Request 1 on child 1 fails in the PARENT's transform: nothing is cached anywhere.  Request 2
+   fails in child 1's own transform: the parent is now cached, child 1 is not.  Request 3 = get([child 2, child 1]):
+   child 2 calls only its own transform (the parent is cached: "once"), child 1 now completes.  Request 4 calls nothing. *)
+Definition z_ex2_world : z_dworld :=
+  let a := d_label_arr [4%Z] in
+  [ZD (ZPBase a) [DSlice (DS (Some 1%Z) None None)] [d_transform 0%Z];
+   ZD (ZPInd 0) [DList [2%Z; 0%Z]] [d_transform 2%Z];
+   ZD (ZPInd 0) [] [d_transform 2%Z]].
+Definition z_ex2_hist : list (list nat * z_plan) :=
+  [([1], z_plan_of [(0, 0)]%Z); ([1], z_plan_of [(1, 0)]%Z); ([2; 1], z_plan_of []); ([1; 2; 0], z_plan_of [(0, 0); (1, 0)]%Z)].
+Definition z_ex2_show (rs : list (list (z_out d_arr * z_log))) :=
+  map (map (fun r => (match fst r with ZRet a => Some (d_values a) | _ => None end, snd r))) rs.
+
+Lemma z_example_nested :
+  z_wf _ _ z_ex2_world /\
+  z_ex2_show (z_run d_getitem z_code z_ex2_world (z_init z_ex2_world) z_ex2_hist) =
+    [[(None, [(0, 0)])];
+     [(None, [(0, 0); (1, 0)])];
+     [(Some [-3; -5; -7]%Z, [(2, 0)]); (Some [-7; -3]%Z, [(1, 0)])];
+     [(Some [-7; -3]%Z, []); (Some [-3; -5; -7]%Z, []); (Some [3; 5; 7]%Z, [])]] /\
+  z_run d_getitem z_code z_ex2_world (z_init z_ex2_world) z_ex2_hist
+    = z_spec_run d_getitem z_ex2_world (fun _ => None) z_ex2_hist.
+Proof.
+  assert (W : z_wf _ _ z_ex2_world).
+  { intros i d j N P. do 3 (destruct i as [|i]; [simpl in N; zinv N; simpl in P; try discriminate; zinv P; lia|]).
+    destruct i; discriminate. }
+  split; [exact W|]. split; [vm_compute; reflexivity|]. now apply z_run_refines_init.
+Qed.
